@@ -288,8 +288,8 @@ def restart_bookkeeping(chk):
     ok2 = False
     if len(loops) == 1:
         lp = loops[0]
-        incs = [n for n in lp.body if isinstance(n, ast.AugAssign) and isinstance(n.target, ast.Name)]
-        names = {src(n.target): src(n.value) for n in incs}
+        from ..core import increment_of
+        names = {increment_of(n)[0]: src(increment_of(n)[1]) for n in lp.body if increment_of(n)}
         ok2 = names.get("t") == "fullStep" and names.get("ti") == "1" and names.get("nLoops") == "1" and \
             src(lp.test).replace(" ", "").replace("(", "").replace(")", "") == "ti<tNandtimeForLoop" and "fullStep=constants.dt" in t
     chk.ob("W3-restart-index", loops[0] if loops else fn, "one step: t += dt, ti += 1", ok2,
